@@ -168,6 +168,36 @@ def run(ck):
         camps.append({'name': name, 'executions': n, 'preemption_bound': bound, 'bound_completed': complete, 'wall_s': round(time.time() - t0, 1)})
         if not complete:
             ck.capped = True
+    # ---- sequential fork histories (no scheduler): the application's own pthread_atfork() child handler makes an exec call, registered before or
+    # after the library's first call (i.e. before or after the library registered ITS handlers: child handlers run in registration order), in the
+    # thread-safe and the non-thread-safe build, the forking process single-threaded or with a (parked) second thread; every child must return
+    # from the handler's call and complete a further call of its own
+    from engine import harness as H
+    hist_n = 0
+    for ts in (True, False):
+        hv = H.build_exec_harness('c10-hist-%s-asan' % ('ts' if ts else 'nots'), ts=ts)
+        cfg = H.hx(b'[snoopy]\nmessage_format = "M %{cmdline}"\noutput = file:log\n')
+        call = 'call execve %s [h61+h62] [] -1 2' % H.hx(b'/x')
+        for order in (['atforkexec', call], [call, 'atforkexec'], ['atforkexec'], ['atforkexec', call, call]):
+            for depth in (1, 2):
+                script = ['sinks pipe', 'lean 1', 'cfg ' + cfg] + order + ['forkname ' + H.hx(b'kid')] * depth + [call, 'echo end']
+                w = os.path.join(ck.workdir, 'forkhist-%d' % hist_n)
+                hist_n += 1
+                r = H.run_script(hv['h_exec'], w, '\n'.join(script), timeout=30)
+                name = 'atfork_child_handler_execs:%s:%s:fork_depth=%d' % ('ts' if ts else 'nots', '>'.join('call' if o.startswith('call') else o for o in order), depth)
+                handler_calls = [l for l in r['lines'] if 'atfork_child_call' in l]
+                ended = any(l.get('echo') == 'end' for l in r['lines'])
+                total += 1
+                outcomes.add((name, r['done'], len(handler_calls), ended))
+                bad = []
+                if not r['done'] or not ended:
+                    bad.append('child_did_not_complete_its_exec_call')
+                if len(handler_calls) != depth or any(h.get('reached_real_exec') != 1 for h in handler_calls):
+                    bad.append('handler_call_did_not_reach_real_exec_once')
+                if r['san']:
+                    bad.append('sanitizer')
+                if bad:
+                    ck.violation('C10:%s:%s' % ('+'.join(bad), name), {'script': script, 'rc': r['rc'], 'lines': r['lines'][-6:], 'stderr': r['stderr'][-300:], 'sanitizer': r['san'][:1]})
     ck.assumptions += ['fork points = scheduling points of the other thread (sync operations; function entries in the fn campaign)', 'sequentially consistent interleavings']
     ck.coverage(states=len(outcomes) + hashed_states[0], scheduler_states_in_hashed_passes=hashed_states[0], transitions=total, traces_validated_against_impl=total, evaluations=total, distinct_nontrivial=max(len(outcomes), len(fork_points)),
                 rule='all schedules within the preemption bound per campaign (output x child depth x calls); distinct = max(distinct (campaign, verdict, child status), distinct fork positions relative to the other thread)',
